@@ -81,9 +81,12 @@ theorem groupby_list_spec_partial (ω : Oracle) {f : Frame} {n : Nat} (hs : f.So
     rw [List.any_eq_false]
     intro k hkm
     simp [hk k hkm]
-  refine ⟨Grouped.foldRows (listKey ω ks) (allRows f) { groups := [], keyOrder := [], key := [] }, ?_, ?_⟩
-  · simp [groupByList, hany, Grouped.foldRows]
-  · have h1 := Grouped.foldRows_groupsOf (listKey ω ks) [] (allRows f) hκ
+  refine ⟨{ Grouped.foldRows (listKey ω ks) (allRows f) { groups := [], keyOrder := [], key := [] } with single := false }, ?_, ?_⟩
+  · have hset := Grouped.foldRows_setSingle (listKey ω ks) (allRows f) false { groups := [], keyOrder := [], key := [] }
+    simp only [groupByList, hany, Bool.false_eq_true, if_false]
+    exact congrArg Outcome.ok hset
+  · show (groupsOf (Grouped.foldRows (listKey ω ks) (allRows f) { groups := [], keyOrder := [], key := [] })).map (·.2) = _
+    have h1 := Grouped.foldRows_groupsOf (listKey ω ks) [] (allRows f) hκ
     simp only at h1
     unfold groupsOf
     rw [h1, Spec.groupsSpec_eq_reps ks (allRows f) hplain,
@@ -123,5 +126,10 @@ theorem groupby_missing (ω : Oracle) (f : Frame) (k : Str) (ks : List Str)
   · have hany : ks.any (fun k => !f.has k) = true :=
       List.any_eq_true.2 ⟨k, hks, by simp [h]⟩
     simp [groupByList, hany, Outcome.isErr]
+
+/-- a `time.Time` key equals only the identical instant in the identical location, down to the nanosecond
+(keys differing below one second, or one instant seen in two zones, are different groups) -/
+theorem time_keys_exact (a b : GoTime) : Cell.goEq (.time a) (.time b) = true ↔ a = b := by
+  simp [Cell.goEq]
 
 end Goframe.C04
